@@ -93,4 +93,12 @@ CLAIMS = {
         'note': TB + 'uTP loss recovery is a dependency: the model assumes an intact ordered stream; the quick tier runs without packet loss.',
         'technique': 'Lean 4 decision-logic/arithmetic proofs + differential correspondence on real instances + end-to-end transfers',
     },
+    'C09': {
+        'text': 'Lean 4 theorems about the offer decision model: one verdict per key in order; accepted only if in range, not stored, (v1) not in '
+                'flight, and a slot was obtained; connection id announced iff some key accepted and then the node waits for exactly those keys; '
+                'offerer-side and receiver-side selections pair contents with keys; a stream with another item count is dropped. The real handleOffer is '
+                'compared on ~700 offers with every verdict kind, and real end-to-end offers are checked on the validation queue.',
+        'note': TB + 'concurrent overlapping offers (in-flight mark set in the receive goroutine after the reply) are not exhibited by this check; uTP is trusted.',
+        'technique': 'Lean 4 decision-logic proofs + differential correspondence on real instances + end-to-end transfers',
+    },
 }
